@@ -546,6 +546,11 @@ func (e *Engine) Run(plan *Plan, dec *core.Decider) *RunResult {
 		time.Sleep(time.Duration(plan.Cfg.ClockOffset))
 	}
 	old := ristretto.VerifSetBufSize(plan.Cfg.SetBufSize)
+	if plan.Cfg.BucketSecs > 0 {
+		// stays in force for the whole run (the sweep reads it on every tick)
+		oldB := ristretto.VerifSetBucketSecs(plan.Cfg.BucketSecs)
+		defer ristretto.VerifSetBucketSecs(oldB)
+	}
 	ristretto.VerifInstall(e.hooks())
 	api, err := newCache(&plan.Cfg)
 	ristretto.VerifSetBufSize(old)
